@@ -416,6 +416,15 @@ pub fn meta_receivers() -> BTreeMap<&'static str, RecvDesc> {
 
 /// The ordered-map twin of a hash-map root receiver (same key and value types, same site ids).
 pub fn btree_twin(name: &str) -> Option<&'static str> {
+    let twin = btree_twin_of(name)?;
+    if crate::skip_table::skipped().contains(&twin) {
+        None
+    } else {
+        Some(twin)
+    }
+}
+
+fn btree_twin_of(name: &str) -> Option<&'static str> {
     Some(match name {
         "RHS" => "RBS",
         "RHI" => "RBI",
